@@ -109,4 +109,23 @@ MUTANTS = [
     M("c04.3-mux-order", "C04", "C04.3", MXF, '            If(go_to_refresh,\n                NextState("REFRESH")\n            )\n        )\n        fsm.act("WRITE",', '        )\n        fsm.act("WRITE",'),
     M("c04.5-zqcs-pulse", "C04", "C04.5", RFF, "            self.sync += [\n                If(zqcs_executer.start, wants_zqcs.eq(0)),\n                If(zqcs_timer.done,     wants_zqcs.eq(1)),\n            ]", "            self.comb += wants_zqcs.eq(zqcs_timer.done)"),
     B("c04-twin-wait", "C04", RFF, "self.comb += timer.wait.eq(~timer.done)", "self.comb += timer.wait.eq(timer.done == 0)"),
+    # ---- C01 ----
+    M("c01.1-rowhit-lookahead", "C01", "C01.1", BMF, "self.comb += row_hit.eq(row == slicer.row(cmd_buffer.source.addr))", "self.comb += row_hit.eq(row == slicer.row(cmd_buffer_lookahead.source.addr))"),
+    M("c01.1-wdata-ready-1", "C01", "C01.1", BMF, "req.wdata_ready.eq(cmd.ready),", "req.wdata_ready.eq(1),"),
+    M("c01.1-pop", "C01", "C01.1", BMF, "cmd_buffer.source.ready.eq(req.wdata_ready | req.rdata_valid),", "cmd_buffer.source.ready.eq(cmd.ready & cmd.cas),"),
+    M("c01.2-read-lat", "C01", "C01.2", XBF, "self.read_latency     = controller.settings.phy.read_latency + 1", "self.read_latency     = controller.settings.phy.read_latency"),
+    M("c01.2-steerer-comb", "C01", "C01.2", MXF, "            self.sync += [\n                phase.rddata_en.eq(rddata_ens[sel]),\n                phase.wrdata_en.eq(wrdata_ens[sel])\n            ]", "            self.comb += [\n                phase.rddata_en.eq(rddata_ens[sel]),\n                phase.wrdata_en.eq(wrdata_ens[sel])\n            ]"),
+    B("c01.2-twin", "C01", XBF, "self.read_latency     = controller.settings.phy.read_latency + 1", "self.read_latency     = 1 + controller.settings.phy.read_latency"),
+    M("c01.3-mask-pol", "C01", "C01.3", MXF, "Cat(*all_wrdata_mask).eq(~interface.wdata_we)", "Cat(*all_wrdata_mask).eq(interface.wdata_we)"),
+    M("c01.3-wrong-master", "C01", "C01.3", XBF, "controller.wdata_we.eq(master.wdata.we)", "controller.wdata_we.eq(self.masters[0].wdata.we)"),
+    M("c01.3-default-we", "C01", "C01.3", XBF, "controller.wdata.eq(0),\n            controller.wdata_we.eq(0)", "controller.wdata.eq(0),\n            controller.wdata_we.eq(2**(controller.data_width//8)-1)"),
+    M("c01.3-phase-order", "C01", "C01.3", MXF, "all_wrdata = [p.wrdata for p in dfi.phases]", "all_wrdata = [p.wrdata for p in reversed(dfi.phases)]"),
+    B("c01.3-twin-mask-helper", "C01", MXF, "Cat(*all_wrdata_mask).eq(~interface.wdata_we)", "Cat(*all_wrdata_mask).eq(~(interface.wdata_we))"),
+    M("c01.4-ce", "C01", "C01.4", XBF, "arbiter.ce.eq(~bank.valid & ~bank.lock)", "arbiter.ce.eq(~bank.valid)"),
+    M("c01.4-lock-one-stage", "C01", "C01.4", BMF, "req.lock.eq(cmd_buffer_lookahead.source.valid | cmd_buffer.source.valid | (cmd_buffer_lookahead.level != 0)),", "req.lock.eq(cmd_buffer_lookahead.source.valid | (cmd_buffer_lookahead.level != 0)),"),
+    M("c01.4-lock-nolevel", "C01", "C01.4", BMF, " | (cmd_buffer_lookahead.level != 0)),", "),"),
+    B("c01.4-twin-ce", "C01", XBF, "arbiter.ce.eq(~bank.valid & ~bank.lock)", "arbiter.ce.eq(~(bank.valid | bank.lock))"),
+    M("c01.5-nolocked", "C01", "C01.5", XBF, "bank_selected  = [(ba == nb) & ~locked for ba, locked in zip(m_ba, master_locked)]", "bank_selected  = [(ba == nb) for ba, locked in zip(m_ba, master_locked)]"),
+    M("c01.5-skip-bank", "C01", "C01.5", XBF, "if other_nb != nb:", "if other_nb > nb:"),
+    M("c01.5-ready-nogrant", "C01", "C01.5", XBF, "master_ready | ((arbiter.grant == nm) & bank_selected[nm] & bank.ready)", "master_ready | (bank_selected[nm] & bank.ready)"),
 ]
